@@ -16,7 +16,7 @@ use yash_syntax::syntax::*;
 /// Number of alias look-ups after which a parse is abandoned and recorded as
 /// a hang.  Every substitution needs a look-up, so a substitution loop cannot
 /// escape it; a legitimate parse of the generated inputs needs < 200.
-pub const LOOKUP_LIMIT: usize = 20_000;
+pub const LOOKUP_LIMIT: usize = 2_000;
 /// Wall-clock limit per parse (backstop for loops that do no look-up).
 pub const TIME_LIMIT: Duration = Duration::from_secs(20);
 
@@ -38,6 +38,11 @@ pub fn start_watchdog() {
             }
         }
     });
+}
+
+/// Marks the start / end of one run of the code under test for the watchdog.
+pub fn watch(what: Option<&str>) {
+    *CURRENT.lock().unwrap() = what.map(|w| (Instant::now(), w.to_string()));
 }
 
 #[derive(Debug)]
